@@ -343,6 +343,21 @@ impl ProcfsHandle {
         let subpath = subpath.as_ref();
         let mut oflags = oflags.into();
 
+        // The same flags that ProcfsHandle::open refuses make no sense here
+        // either. If the target is a (magic-)link, the final open below is a
+        // plain openat(2) that follows it, so the check done by the procfs
+        // resolver never sees these flags -- O_CREAT would be silently ignored
+        // and O_TMPFILE would create an anonymous file in whatever directory
+        // the link points to (for instance through "cwd" or "root").
+        if oflags.intersects(OpenFlags::O_CREAT | OpenFlags::O_EXCL)
+            || oflags.contains(OpenFlags::O_TMPFILE)
+        {
+            Err(ErrorImpl::InvalidArgument {
+                name: "flags".into(),
+                description: "procfs open flags cannot contain O_CREAT, O_EXCL or O_TMPFILE".into(),
+            })?
+        }
+
         // Drop any trailing /-es.
         let (subpath, trailing_slash) = utils::path_strip_trailing_slash(subpath);
         if trailing_slash {
